@@ -22,6 +22,8 @@ type HarnessCfg struct {
 	NowMonotone   bool
 	FirstRangeInOrder bool
 	DPOR bool
+	ClockSmall bool // instants are base + small offsets (8-bit seconds); see now()
+	ClockHorizon int // seconds: every clock reading lies within this many seconds of the first one (0 = unbounded)
 }
 
 func defaultHarnessCfg() *HarnessCfg {
@@ -500,18 +502,41 @@ func inNow(s *State, fr *Frame, fn *ssa.Function, a []Value, d ssa.Value) (Value
 
 func (s *State) now() Value {
 	s.nowCtr++
-	sec := s.named(fmt.Sprintf("now%d.sec", s.nowCtr), 64)
-	nsec := s.named(fmt.Sprintf("now%d.nsec", s.nowCtr), 64)
-	s.assume(Ult(nsec, Const(64, 1000000000)))
-	// years 1970 .. ~2500 (seconds since year 1)
-	s.assume(Ule(Const(64, unixToInternal), sec))
-	s.assume(Ult(sec, Const(64, unixToInternal+(1<<34))))
+	var sec, nsec *Term
+	if s.cfg != nil && s.cfg.ClockSmall {
+		sec, nsec = s.smallInstant(fmt.Sprintf("now%d", s.nowCtr))
+	} else {
+		sec = s.named(fmt.Sprintf("now%d.sec", s.nowCtr), 64)
+		nsec = s.named(fmt.Sprintf("now%d.nsec", s.nowCtr), 64)
+		s.assume(Ult(nsec, Const(64, 1000000000)))
+		// years 1970 .. ~2500 (seconds since year 1)
+		s.assume(Ule(Const(64, unixToInternal), sec))
+		s.assume(Ult(sec, Const(64, unixToInternal+(1<<34))))
+	}
 	if s.lastNow[0] != nil && (s.cfg == nil || s.cfg.NowMonotone) {
 		ps, pn := s.lastNow[0], s.lastNow[1]
 		s.assume(Or(Ult(ps, sec), And(Eq(ps, sec), Ule(pn, nsec))))
 	}
+	if s.firstNow == nil {
+		s.firstNow = sec
+	} else if s.cfg != nil && s.cfg.ClockHorizon > 0 {
+		s.assume(Ule(sec, Add(s.firstNow, Const(64, uint64(s.cfg.ClockHorizon)))))
+	}
 	s.lastNow = [2]*Term{sec, nsec}
 	return Struct{[]Value{nsec, sec, s.timeLocal()}}
+}
+
+// clockBase is the fixed origin of the "small clock": behaviour of the TTL code depends only on the
+// position of instants relative to bucket boundaries, and shifting every instant by a multiple of
+// the bucket width is a symmetry, so instants are base + (8-bit seconds offset, 30-bit nanoseconds).
+const clockBase = unixToInternal + 1700000000
+
+func (s *State) smallInstant(name string) (sec, nsec *Term) {
+	d := s.named(name+".dsec", 8)
+	n := s.named(name+".nsec", 32)
+	s.assume(Ult(n, Const(32, 1000000000)))
+	s.assume(Ult(d, Const(8, 200)))
+	return Add(Const(64, clockBase), ZExt(d, 64)), ZExt(n, 64)
 }
 
 func inSinceUntil(s *State, fr *Frame, fn *ssa.Function, a []Value, d ssa.Value) (Value, bool) {
